@@ -266,13 +266,16 @@ fn build_def(rng: &mut Rng, req: &mut String) -> RecordDefinition<NativeDatumDet
     let mut live: Vec<usize> = vec![];
     let mut ctr = 0;
     let fixed = if rng.chance(1, 2) { Some(rng.below(4)) } else { None };
+    let mut names: std::collections::BTreeMap<usize, String> = Default::default();
     for v in 0..nvar {
+        let mut freed_names: Vec<String> = vec![];
         if v > 0 {
             for id in live.clone() {
                 if rng.chance(1, 3) {
                     b.remove_datum(truc::record::definition::DatumId::from(id)).unwrap();
                     writeln!(req, "rm {}", id).unwrap();
                     live.retain(|&x| x != id);
+                    freed_names.push(names[&id].clone());
                 }
             }
         }
@@ -280,12 +283,14 @@ fn build_def(rng: &mut Rng, req: &mut String) -> RecordDefinition<NativeDatumDet
         for _ in 0..nadd {
             let (ty, size, align, copy) = TYPES[rng.below(TYPES.len())];
             ctr += 1;
-            let name = format!("f{}", ctr);
+            // sometimes re-use the name of a datum removed in this very step (legal: names are per variant)
+            let name = if !freed_names.is_empty() && rng.chance(1, 3) { freed_names.remove(0) } else { format!("f{}", ctr) };
             let uninit = copy && rng.chance(1, 3);
             let id = b.add_datum_override::<(), _>(name.clone(), DatumDefinitionOverride { type_name: Some(ty.to_string()), size: Some(size), align: Some(align), allow_uninit: Some(uninit) }).unwrap();
             let id: usize = format!("{}", id).parse().unwrap();
             writeln!(req, "add {} {} {} {} {} override", name, ty, size, align, if uninit { 1 } else { 0 }).unwrap();
             live.push(id);
+            names.insert(id, name);
         }
         let s = fixed.unwrap_or_else(|| rng.below(4));
         match s {
